@@ -540,6 +540,25 @@ def _build(agg, p):
     raise ValueError(k)
 
 
+def failing_first_access(real, a):
+    import sqlite3
+    state = {"armed": True}
+
+    def boom(conn, cursor, statement, parameters, context, executemany):
+        if state["armed"] and statement.lstrip().upper().startswith("SELECT"):
+            state["armed"] = False
+            raise sqlite3.OperationalError("database is locked")
+
+    sa.event.listen(real.engine, "before_cursor_execute", boom)
+    try:
+        try:
+            len(a.fits)
+        except Exception:  # noqa - the fault reaches the caller; nothing may be remembered from the failed attempt
+            real.faulted = getattr(real, "faulted", 0) + 1
+    finally:
+        sa.event.remove(real.engine, "before_cursor_execute", boom)
+
+
 def run_real(real, pred, orders, slices, chain_query):
     """-> dict(full=[ids], result=[ids]) or {"err": ..}"""
     agg = real.agg
@@ -559,6 +578,10 @@ def run_real(real, pred, orders, slices, chain_query):
                 a = a.query(build(agg, pred))
         if touch:
             len(a.fits)
+        elif real.touch % 4 == 1:
+            # a transient fault (the database locked by another writer) while the aggregator is read for the first
+            # time: what the same aggregator answers afterwards is what it answers without the fault
+            failing_first_access(real, a)
         for o in orders:
             a = a.order_by(getattr(agg.search, o["attr"]), reverse=o["reverse"])
         full = [f.id for f in a.fits]
